@@ -105,6 +105,8 @@ class SendProto(Suite):
                 # (fewer pending requests than the sender's pipeline holds, so that flow control cannot stall it)
                 opt["inline"] = True
             ops.append({"op": "sendproto", "src": {"kind": "mem", "tree": tree}, "reqs": reqs, "opt": opt})
+            if rng.random() < 0.2:
+                ops[-1]["src"]["eof_with_data"] = True   # readers that deliver their last bytes together with io.EOF
         return ops
 
     def prepare_model(self, ops, impl=None):
